@@ -57,18 +57,23 @@ def Slot.isFn : Slot → Bool
 /-- `'on_' + (event or '')` -/
 def methodName (ev : Ev) : Str := ['o', 'n', '_'] ++ ev
 
+/-- an exact-name lookup `event != '*' and event in self.handlers[n]` (since /repo 6dcbd32 the
+    catch-all KEY `'*'` is never matched as an event name) -/
+def Reg.exact (r : Reg) (n : Ns) (ev : Ev) : Bool := ev != star && r.fn n ev
+
 def Reg.hasMethod (r : Reg) (ns : Ns) (ev : Ev) : Bool := r.attr ns (methodName ev)
 
-/-- The part of `_get_event_handler` under `if namespace in self.handlers:` -/
+/-- The part of `_get_event_handler` under `if namespace in self.handlers:`
+    (`if event != '*' and event in self.handlers[namespace]: … elif …`) -/
 def eventHandlerNs (reserved : List Ev) (r : Reg) (ns : Ns) (ev : Ev) : Option (Slot × List PArg) :=
-  if r.fn ns ev then some (.fnNsEv, [])                       -- handler = handlers[ns][ev]
+  if r.exact ns ev then some (.fnNsEv, [])                    -- handler = handlers[ns][ev]
   else if !reserved.contains ev && r.fn ns star then
     some (.fnNsStar, [.ev])                                   -- args = (event, *args)
   else none
 
 /-- The part of `_get_event_handler` under `if handler is None and '*' in self.handlers:` -/
 def eventHandlerStar (reserved : List Ev) (r : Reg) (_ns : Ns) (ev : Ev) : Option (Slot × List PArg) :=
-  if r.fn star ev then some (.fnStarEv, [.ns])                -- args = (namespace, *args)
+  if r.exact star ev then some (.fnStarEv, [.ns])             -- args = (namespace, *args)
   else if !reserved.contains ev && r.fn star star then
     some (.fnStarStar, [.ev, .ns])                            -- args = (event, namespace, *args)
   else none
@@ -146,7 +151,8 @@ def PArg.render (ns : Ns) (ev : Ev) : PArg → Str
 
 /-- The documented precedence table of the property statement, written independently of the
     transcription above: first match over the six presence bits (plus "the selected class has the
-    method").  `res` = the event is reserved. -/
+    method").  `res` = the event is reserved; `b1`, `b3` are the EXACT-name bits (`Reg.exact`: false for
+    an event literally named `"*"`), `b2`, `b4` the catch-all-event bits. -/
 def table (res b1 b2 b3 b4 b5 b6 m5 m6 : Bool) : Res :=
   match b1, b2 && !res, b3, b4 && !res, b5, b6 with
   | true, _, _, _, _, _ => .invoke .fnNsEv []
